@@ -25,7 +25,7 @@ CASE_TIMEOUT = 3600  # one case is a whole schedule exploration
 LEVEL = "model_checking"
 DETERMINISM_REPLAY = False  # BFS is deterministic by construction; THR verifies replay itself
 RULE = (
-    "part 1: all op sequences to depth d over {log, burst(999), burst(1001), add(d1), add(d2,d3), "
+    "part 1: all op sequences to depth d over {log, burst(999), burst(1001), burst(2001), add(d1), add(d2,d3), "
     "add(), remove(d1), remove(d2), global(k=v1), global(k=v2,j=w)} with <= 2 bursts, BFS on the real "
     "Destinations object, state = canonical (any_added, destination names, buffered message contents "
     "modulo serial renaming, global fields), transition = one public API call checked against the list "
@@ -42,7 +42,7 @@ ASSUMPTIONS = [
 OUT_FILE = _output.__file__
 DESTS = _output.Logger._destinations
 
-OPS = ["log", "b999", "b1001", "add1", "add23", "add0", "rm1", "rm2", "g1", "g2"]
+OPS = ["log", "b999", "b1001", "b2001", "add1", "add23", "add0", "rm1", "rm2", "g1", "g2"]
 
 
 def BOUNDS(tier):
@@ -171,6 +171,8 @@ def apply(obj, op):
         return obj.log(999)
     if op == "b1001":
         return obj.log(1001)
+    if op == "b2001":
+        return obj.log(2001)
     if op == "add1":
         return obj.add("d1")
     if op == "add23":
@@ -189,8 +191,8 @@ def apply(obj, op):
 
 
 def enabled(model, op, hist, max_bursts):
-    if op in ("b999", "b1001"):
-        return sum(1 for h in hist if h in ("b999", "b1001")) < max_bursts
+    if op in ("b999", "b1001", "b2001"):
+        return sum(1 for h in hist if h in ("b999", "b1001", "b2001")) < max_bursts
     if op == "add1":
         return "d1" not in model.dests
     if op == "add23":
